@@ -81,7 +81,7 @@ func restResolve(pc protocol.Client, suffix string, ops []*ref.Op, query string)
 }
 
 func checkC06(c *hx.Ctx) {
-	c.Rule("random histories over the operation alphabet (forks, failing deltas, recovers, deactivates, duplicate creates, unpublished operations stamped inside or after the anchored time range) with pairwise distinct coordinates; version times are also spelled with non-UTC offsets, and the REST slice also uses ledger times far ahead of any wall clock; a third of the histories is also queried with a random part of the operations supplied through WithAdditionalOperations; for every cut time T (each operation time, each gap, before the first, after the last) Resolve(H, versionTime=T) must equal Resolve of H restricted to time<=T, and for every canonical reference V Resolve(H, versionId=V) must equal Resolve of the prefix of H (in (time,number) order) ending at V; unknown ids and times before the first operation must fail; a slice also goes through the REST resolve handler; full resolution models including operation lists are compared; histories produced through REAL batch files and the transaction processor, with an earlier anchor string anchored again later (stores that copy and stores that keep the objects they are handed), and histories submitted through DocumentHandler.ProcessOperation with an unpublished-operation store and a writer that anchors before Add returns: the state recorded after every transaction is what its version id / a time before the next transaction resolves to at the end; non-trivial = cut strictly inside the history")
+	c.Rule("random histories over the operation alphabet (forks, failing deltas, recovers, deactivates, duplicate creates, unpublished operations stamped inside or after the anchored time range) with pairwise distinct coordinates; version times are also spelled with non-UTC offsets, and the REST slice also uses ledger times far ahead of any wall clock; a third of the histories is also queried with a random part of the operations supplied through WithAdditionalOperations; for every cut time T (each operation time, each gap, before the first, after the last) Resolve(H, versionTime=T) must equal Resolve of H restricted to time<=T, and for every canonical reference V Resolve(H, versionId=V) must equal Resolve of the prefix of H (in (time,number) order) ending at V; unknown ids and times before the first operation must fail; a slice also goes through the REST resolve handler (version times, and every anchored reference as version id, also of operations that resolution skips); full resolution models including operation lists are compared; histories produced through REAL batch files and the transaction processor, with an earlier anchor string anchored again later (stores that copy and stores that keep the objects they are handed), and histories submitted through DocumentHandler.ProcessOperation with an unpublished-operation store and a writer that anchors before Add returns: the state recorded after every transaction is what its version id / a time before the next transaction resolves to at the end; non-trivial = cut strictly inside the history")
 	nCases := c.N(400, 8000)
 	root := c.Rng("cases")
 	seeds := make([]uint64, nCases)
@@ -364,6 +364,23 @@ func checkC06(c *hx.Ctx) {
 				}
 				c.Count("rest_comparisons")
 			}
+			// the same through version ids: every anchored reference - also of operations that resolution skips (lost a
+			// competition, not authorised, bad delta) - names the state of the history up to and including that operation
+			inOrder := ref.Order(pubOnly)
+			for k, o := range inOrder {
+				if (k+i/8)%2 == 1 && !c.Thorough() {
+					continue
+				}
+				c.Eval()
+				codeV, bodyV := restResolve(pc, u.Suffix, pubOnly, "?versionId="+url.QueryEscape(o.Ref))
+				codeP, bodyP := restResolve(pc, u.Suffix, inOrder[:k+1], "")
+				if codeV != codeP || (codeV == 200 && bodyV != bodyP) {
+					c.Violation(fmt.Sprintf("C06 REST resolve with versionId=%s differs from REST resolve of the history up to that operation: [%s]\n   by version id: %d %s\n   prefix:        %d %s", o.Ref, histString(pubOnly), codeV, trunc600(bodyV), codeP, trunc600(bodyP)),
+						map[string]interface{}{"history": replayOps(pubOnly), "versionId": o.Ref})
+					return
+				}
+				c.Count("rest_version_id_comparisons")
+			}
 		}
 		// ---- long-form DID of the anchored DID: an unknown version id / a time before the first operation is still an error
 		if i%4 == 0 && H[0].Label == "C" && H[0].Published() {
@@ -402,10 +419,13 @@ func checkC06(c *hx.Ctx) {
 			c.Sample(2, map[string]interface{}{"history": histString(H), "time_cuts": cuts, "id_cuts": len(ordered)})
 		}
 	})
+	c06OneNodeManyQueries(c, unis, p, pc)
+	c.Floor("nodes_queried_repeatedly_with_pending_operations", 100)
 	c06ThroughBatchFiles(c)
 	c06FastAnchoring(c)
 	c.Floor("histories_through_batch_files_with_repeated_anchor_string", 40)
 	c.Floor("histories_anchored_before_the_handler_returns", 30)
+	c.Floor("rest_version_id_comparisons", 100)
 	c.Floor("inner_time_cuts", 200)
 	c.Floor("concurrent_version_queries", 50)
 	c.Floor("time_cuts_with_additional_operations", 200)
